@@ -555,7 +555,7 @@ func (s *simStreamStub) AsConsumer(ctx context.Context, channels []string, subNa
 	s.f.MQ.sim.Side("checkconn %s", strings.Join(channels, ","))
 	return nil
 }
-func (s *simStreamStub) Chan() <-chan *msgstream.ConsumeMsgPack            { return nil }
+func (s *simStreamStub) Chan() <-chan *msgstream.ConsumeMsgPack                { return nil }
 func (s *simStreamStub) GetUnmarshalDispatcher() msgstream.UnmarshalDispatcher { return nil }
 func (s *simStreamStub) Seek(ctx context.Context, msgPositions []*msgstream.MsgPosition, includeCurrentMsg bool) error {
 	for _, p := range msgPositions {
